@@ -7,10 +7,9 @@
 
     C09_in_scope                  namespaces_in_scope enumerates exactly scopeSpec, each prefix once,
                                   never xmlns="", always xml
-    C09_ns_for_prefix             namespace_for_prefix = scopeSpec, except that a binding to the
-                                  no-namespace id is hidden (exact, all trees)
-    C09_ns_for_prefix_partial     … = scopeSpec when no prefix is bound to the empty URI
-    C09_ns_for_prefix_false       closed witness <a xmlns:p=""/>
+    C09_ns_for_prefix             namespace_for_prefix = scopeSpec (full strength since /repo debae56:
+                                  only xmlns="" hides a binding; all trees, nodes, prefixes)
+    C09_ns_for_prefix_in_scope    namespace_for_prefix(p) = Some(ns) iff namespaces_in_scope lists (p, ns)
     C09_defined                   is_prefix_defined is implied by a binding
     C09_prefix_sound              prefix_for_namespace(ns) = p, ns real  ⇒  p is bound to ns
     C09_prefix_complete           whenever some prefix is bound to ns, prefix_for_namespace finds one
@@ -81,54 +80,24 @@ theorem C09_in_scope (t : Tree) (path : Path) (l : List (Nat × Nat))
   · obtain ⟨ns, hns⟩ := scopeSpecChain_xml chain
     exact ⟨ns, (mem_namespacesInScopeChain chain _ _).2 hns⟩
 
-/-- `namespace_for_prefix(p)` is the specification's binding of `p`, with a binding to the
-    no-namespace id reported as `None`. -/
+/-- `namespace_for_prefix(p)` is the specification's binding of `p` — full strength since /repo
+    debae56 (before, a non-empty prefix bound to the empty URI was reported as `None` while
+    `namespaces_in_scope` listed it): every tree, every node, every prefix. -/
 theorem C09_ns_for_prefix (t : Tree) (path : Path) (p : Nat) (r : Option Nat)
     (h : namespaceForPrefix t path p = some r) :
-    r = (scopeSpec t path p).bind realNs := by
+    r = scopeSpec t path p := by
   simp only [namespaceForPrefix, Option.map_eq_some_iff] at h
   obtain ⟨chain, hc, rfl⟩ := h
   simp [scopeSpec, hc, namespaceForPrefixChain_eq]
 
-/-- The statement of the property at full strength. -/
-def C09_ns_for_prefix_statement : Prop :=
-  ∀ (t : Tree) (path : Path) (p : Nat) (r : Option Nat),
-    namespaceForPrefix t path p = some r → r = scopeSpec t path p
-
-/-- No element on the way to the node binds a non-empty prefix to the empty URI (`xmlns:p=""`,
-    which Namespaces in XML 1.0 forbids but `Xot` accepts). -/
-def NoPrefixToEmptyUri (chain : List Tree) : Prop :=
-  ∀ a ∈ chain, ∀ q n, (q, n) ∈ a.nsDecls → n = Env.noNamespace → q = Env.emptyPrefix
-
-theorem C09_ns_for_prefix_partial (t : Tree) (path : Path) (chain : List Tree) (p : Nat)
-    (r : Option Nat) (hc : t.ancestorsOrSelf path = some chain) (hg : NoPrefixToEmptyUri chain)
-    (h : namespaceForPrefix t path p = some r) : r = scopeSpec t path p := by
-  rw [C09_ns_for_prefix t path p r h]
-  simp only [scopeSpec, hc]
-  cases hs : scopeSpecChain chain p with
-  | none => rfl
-  | some n =>
-    simp only [Option.bind_some, realNs]
-    have hn : n ≠ Env.noNamespace := by
-      intro h0
-      subst h0
-      have hm := mem_of_lookup_eq_some (scopeSpecChain_some_lookup hs)
-      simp only [allDecls, flatDecls, List.mem_append, List.mem_flatMap, basePrefixes,
-        List.mem_singleton, Prod.mk.injEq] at hm
-      rcases hm with ⟨a, ha, hm⟩ | ⟨_, h2⟩
-      · have := hg a ha p _ hm rfl
-        subst this
-        exact scopeSpecChain_empty_ne chain hs
-      · simp [Env.noNamespace, Env.xmlNamespace] at h2
-    have : (n == Env.noNamespace) = false := by simpa using hn
-    simp [this]
-
-/-- `<a xmlns:p=""/>`: `namespaces_in_scope` lists `(p, "")`, `namespace_for_prefix(p)` is `None`. -/
-theorem C09_ns_for_prefix_false : ¬ C09_ns_for_prefix_statement := by
-  intro h
-  have := h (.node (.element 2) [.node (.namespace 2 0) []]) [] 2 none (by decide)
-  revert this
-  decide
+/-- `namespace_for_prefix` and `namespaces_in_scope` agree: `Some(ns)` iff the pair is listed. -/
+theorem C09_ns_for_prefix_in_scope (t : Tree) (path : Path) (p ns : Nat) (l : List (Nat × Nat))
+    (hl : namespacesInScope t path = some l) :
+    namespaceForPrefix t path p = some (some ns) ↔ (p, ns) ∈ l := by
+  rw [(C09_in_scope t path l hl).1 p ns]
+  simp only [namespacesInScope, Option.map_eq_some_iff] at hl
+  obtain ⟨chain, hc, _⟩ := hl
+  simp [namespaceForPrefix, scopeSpec, hc, namespaceForPrefixChain_eq]
 
 /-- `is_prefix_defined` holds for every bound prefix. -/
 theorem C09_defined (t : Tree) (path : Path) (p ns : Nat) (h : scopeSpec t path p = some ns) :
@@ -553,16 +522,12 @@ example : prefixForNamespace (.node (.element 2) [.node (.namespace 2 2) [], .no
 example : namespacesInScope (.node (.element 2) [.node (.namespace 2 2) [], .node (.namespace 0 0) [],
     .node (.element 3) [.node (.namespace 2 4) []]]) [2] = some [(2, 4), (1, 1)] := by decide
 
-example : NoPrefixToEmptyUri [.node (.element 2) [.node (.namespace 0 0) [], .node (.namespace 2 3) []]] := by
-  intro a ha q n hm hn
-  simp only [List.mem_singleton] at ha
-  subst ha
-  revert hm
-  simp only [Tree.nsDecls, Tree.namespaceNodes, Tree.kids, Tree.value]
-  simp [Value.category]
-  rintro (⟨rfl, rfl⟩ | ⟨rfl, rfl⟩)
-  · rfl
-  · simp [Env.noNamespace] at hn
+/-- `<a xmlns:p=""/>` (the former witness; only reachable through the API now): `namespaces_in_scope`
+    lists `(p, "")` and `namespace_for_prefix(p)` is `Some("")`; `xmlns=""` still hides. -/
+example : namespaceForPrefix (.node (.element 2) [.node (.namespace 2 0) []]) [] 2 = some (some 0) := by decide
+example : namespacesInScope (.node (.element 2) [.node (.namespace 2 0) []]) [] = some [(2, 0), (1, 1)] := by decide
+example : namespaceForPrefix (.node (.element 2) [.node (.namespace 0 3) [],
+    .node (.element 2) [.node (.namespace 0 0) []]]) [1] 0 = some none := by decide
 
 /-- `<a xmlns:p="A"><b B:x=""/></a>` (b in A, x in B): unique declarations; `B` is reported for the
     whole tree, `A` only for `b` alone, and `b` inherits exactly `p ↦ A`. -/
